@@ -4,6 +4,9 @@ VERIF = os.path.dirname(os.path.dirname(os.path.abspath(__file__)))
 ALL = ["C%02d" % i for i in range(1, 19)]
 
 CLAIMS = {
+    "C15": dict(cat="proof", design="§7 C15", technique="Lean 4 theorem (invariant over the fold) about a model of render_toc_ul for all level lists + string-exact correspondence; hook/directive clauses tested",
+                text="Theorem toc_wf (Lean kernel): for EVERY list of levels (any naturals, any length, any jumps) the output of the model of render_toc_ul passes a content-model checker with nothing left open, contains each entry exactly once in order, and nests each entry under exactly the chain of closest preceding strictly shallower entries. Tied to the code by string-exact comparison on all level sequences up to length 5/6 over 1..6 plus long random walks. The hook/directive clauses (unique ids in document order, selection by level range, entry text) are evaluated on the implementation against an independent computation from the token list (tested, not proved).",
+                note="Trusted: Lean kernel + propext/Quot.sound; the abstraction of each <a> entry to an item event; html.parser as independent nesting oracle. Entry texts are compared modulo surrounding ASCII whitespace (a setext heading's TOC entry carries a trailing newline)."),
     "C16": dict(cat="proof", design="§7 C16", technique="Lean 4 theorems about the normalisation function for all strings + model/implementation correspondence on state.src",
                 text="Theorems (Lean kernel) for ALL strings: rewriting every line ending as CRLF / CR / LF, or supplying the missing final newline, leaves the normalised source unchanged; norm \"\" = \"\\n\" (= what None maps to). Tied to the code by comparing the real parser's state.src with the model on exhaustive short strings and random documents; the property itself is also evaluated on the implementation over 12+ configurations.",
                 note="Trusted: Lean kernel + propext/Classical.choice/Quot.sound; that everything after the first four statements of Markdown.parse reads only state.src (sampled by the behavioural oracle); CPython str.replace/endswith semantics as modelled."),
